@@ -139,10 +139,21 @@ struct SessionsModel : Monitor {
 		require_auth("tun_write");
 	}
 
+	// C18 lookup: a packet read from tun for the address of a surely live, logged-in session must be taken for that session
+	struct LookupExp { bool armed = false; int uid = -1; Bytes z; uint64_t gen = 0; Addr bound; bool sent = false; } lk;
 	void on_tun_read(Task &t, const Bytes &p) override
 	{
 		if (&t != w->srv || p.size() < 24) return;
 		uint32_t dst = ((uint32_t)p[20] << 24) | (p[21] << 16) | (p[22] << 8) | p[23];
+		lk.armed = false;
+		for (auto &sl : slot) {
+			SlotModel &m = sl.second;
+			if (!m.issued || !m.logged_in || m.assigned_ip_h != dst || m.t_lo == 0 || w->S.now - m.t_lo > 55ull * 1000000) continue;
+			UserView v;
+			if (!peek_user(sl.first, v)) continue;
+			if (v.conn == 1 && v.out.len > 0 && v.outq_filled >= 4) { w->probes["c18.lookup_queue_full"]++; continue; }   // legitimately dropped
+			lk.armed = true; lk.uid = sl.first; lk.z = z_compress(p); lk.gen = m.gen; lk.bound = m.bound; lk.sent = false;
+		}
 		bool expired_owner = true, any = false;
 		for (auto &s : slot) if (s.second.issued && s.second.assigned_ip_h == dst) { any = true; if (s.second.logged_in && w->S.now - s.second.t_hi < 62ull * 1000000) expired_owner = false; }
 		srv_offered[p] = {w->S.now, any ? expired_owner : true};
@@ -152,6 +163,11 @@ struct SessionsModel : Monitor {
 	{
 		if (!s || s->owner != w->srv) return;
 		if (d.dst.fam == AF_INET && d.dst.a[0] == 127) return;
+		if (lk.armed && !lk.sent) {
+			// did this emission carry (the beginning of) the expected packet?
+			if (is_rawf(d.data)) { if (d.data.size() >= 4 + lk.z.size() && !memcmp(&d.data[4], lk.z.data(), lk.z.size())) lk.sent = true; }
+			else { DnsMsg m2; Bytes p2; if (dns_parse_strict(d.data, m2).empty() && answer_payload(m2, p2) && p2.size() > 2 && p2.size() - 2 <= lk.z.size() && !memcmp(&p2[2], lk.z.data(), p2.size() - 2)) lk.sent = true; }
+		}
 		if (is_rawf(d.data)) {
 			int cmd = d.data[3] >> 4, uid = d.data[3] & 15;
 			if (cmd == 1) { if (!(step.n == 1 && step.valid_rawlogin)) require_auth("raw_login_reply"); else { SlotModel &sm = slot[uid]; sm.raw_ok = true; if (!same_ip(sm.bound, step.d.src)) sm.bound_hist.push_back(sm.bound); sm.bound = step.d.src; sm.t_lo = sm.t_hi = w->S.now; w->probes["c03.rawlogin_ok"]++; } }
@@ -171,8 +187,21 @@ struct SessionsModel : Monitor {
 		if (!has) return;
 		std::string ps(pl.begin(), pl.end());
 		if (u.cmd == 'v') {
+			int cap = (int)std::min<int64_t>(16, ((int64_t)1 << (32 - w->tun_bits)) - 3);
+			if (pl.size() >= 4 && !memcmp(pl.data(), "VFUL", 4)) {
+				// C18: the pool has min(16, subnet size - 3) slots; "full" may only be said when none of them is free
+				w->probes["c18.vful"]++;
+				for (int x = 0; x < cap; x++) {
+					auto it = slot.find(x);
+					bool free_slot = it == slot.end() || !it->second.issued || w->S.now - it->second.t_hi > 62ull * 1000000;
+					if (free_slot) { char b[200]; snprintf(b, sizeof b, "server answered VFUL although slot %d of %d is %s", x, cap, it == slot.end() || !it->second.issued ? "unused" : "silent for more than 62 s"); w->S.violate("C18", "pool.full_with_free_slot", b); break; }
+				}
+				return;
+			}
 			if (pl.size() >= 9 && !memcmp(pl.data(), "VACK", 4)) {
 				int uid = pl[8];
+				if (uid >= cap) { char b[160]; snprintf(b, sizeof b, "userid %d handed out, the subnet /%d has room for %d sessions", uid, w->tun_bits, cap); w->S.violate("C18", "pool.size", b); }
+				if (uid == cap - 1) w->probes["c18.last_slot_used"]++;
 				SlotModel &sm = slot[uid];
 				// C04 (3): never hand out a slot whose session was clearly active during the last 60 s
 				if (sm.issued && w->S.now - sm.t_lo < 60ull * 1000000 && sm.t_lo > 0) {
@@ -200,9 +229,12 @@ struct SessionsModel : Monitor {
 					// C04/C18 rider: assigned addresses are distinct, inside the subnet, not the server's
 					uint32_t mask = w->tun_bits ? 0xffffffffu << (32 - w->tun_bits) : 0;
 					if ((sm.assigned_ip_h & mask) != (w->srv_tun_ip_h & mask) || sm.assigned_ip_h == w->srv_tun_ip_h || (sm.assigned_ip_h & ~mask) == 0 || (sm.assigned_ip_h & ~mask) == ~mask)
-						w->S.violate("C04", "address.range", "session " + std::to_string(u.userid) + " was assigned " + Addr::v4(sm.assigned_ip_h, 0).str());
+					{ w->S.violate("C04", "address.range", "session " + std::to_string(u.userid) + " was assigned " + Addr::v4(sm.assigned_ip_h, 0).str());
+					  w->S.violate("C18", "address.range", "session " + std::to_string(u.userid) + " was assigned " + Addr::v4(sm.assigned_ip_h, 0).str() + " (server " + Addr::v4(w->srv_tun_ip_h, 0).str() + "/" + std::to_string(w->tun_bits) + ")"); }
+					w->probes["c18.addresses_checked"]++;
 					for (auto &o : slot) if (o.first != u.userid && o.second.logged_in && o.second.assigned_ip_h == sm.assigned_ip_h)
-						w->S.violate("C04", "address.duplicate", "sessions " + std::to_string(u.userid) + " and " + std::to_string(o.first) + " share " + Addr::v4(sm.assigned_ip_h, 0).str());
+					{ w->S.violate("C04", "address.duplicate", "sessions " + std::to_string(u.userid) + " and " + std::to_string(o.first) + " share " + Addr::v4(sm.assigned_ip_h, 0).str());
+					  w->S.violate("C18", "address.duplicate", "sessions " + std::to_string(u.userid) + " and " + std::to_string(o.first) + " share " + Addr::v4(sm.assigned_ip_h, 0).str()); }
 				}
 			} else if (ps == "LNAK" && step.n == 1 && (no_check_ip || step.from_bound) && step.cmd == 'l') slot[u.userid].t_lo = w->S.now;   // a wrong password from the bound address of a live slot still counts as activity (BADIP = refused, does not)
 			return;
@@ -288,6 +320,17 @@ struct SessionsModel : Monitor {
 	void on_block(Task &t) override
 	{
 		if (&t != w->srv) return;
+		if (lk.armed) {
+			lk.armed = false;
+			auto it = slot.find(lk.uid);
+			if (it != slot.end() && it->second.gen == lk.gen) {
+				std::vector<Bytes> held; peek_outpackets(lk.uid, held);
+				bool ok = lk.sent;
+				for (auto &h : held) if (h == lk.z) ok = true;
+				w->probes["c18.lookup_checked"]++;
+				if (!ok) { char b[220]; snprintf(b, sizeof b, "a packet for %s, the address of live logged-in session %d, was neither queued for nor sent to that session", Addr::v4(it->second.assigned_ip_h, 0).str().c_str(), lk.uid); w->S.violate("C18", "lookup.owner_not_found", b); }
+			}
+		}
 		if (step.n == 1) {
 			int n = peek_nusers();
 			bool unauth = step.parsed && !step.authorised && !step.open_cmd;
@@ -349,12 +392,14 @@ J gen_sessions(uint64_t seed, const J &ov)
 	Rng r(seed, "sessions");
 	std::string focus = ov.gets("focus");
 	bool ffrag = focus == "fragsize";
+	bool fpool = focus == "pool";
 	J plan = J::obj(), cfg = J::obj(), ops = J::arr();
 	plan.set("scenario", "sessions"); plan.set("seed", (long long)seed);
 	std::string dom = gen_domain(r, (int)r.range(5, 30));
 	cfg.set("domain", dom);
 	cfg.set("password", gen_password(r));
 	int bits = ov.has("tun_bits") ? (int)ov.geti("tun_bits") : (int)(r.chance(0.6) ? r.range(24, 27) : r.range(8, 30));
+	if (fpool && !ov.has("tun_bits")) bits = (int)(r.chance(0.5) ? r.range(27, 30) : r.range(8, 30));
 	cfg.set("tun_bits", bits);
 	// server host position inside the subnet
 	uint32_t base = ((uint32_t)10 << 24) | ((uint32_t)r.range(0, 255) << 16) | ((uint32_t)r.range(0, 255) << 8);
@@ -381,6 +426,7 @@ J gen_sessions(uint64_t seed, const J &ov)
 	J models = J::arr();
 	int nm = (int)(r.chance(0.3) ? r.range(cap - 1, cap + 2) : r.range(1, 6));
 	if (ffrag) nm = (int)r.range(1, 3);
+	if (fpool) nm = std::min(18, cap + (int)r.range(0, 3));      // enough contenders to fill the pool and be refused
 	if (nm < 1) nm = 1;
 	if (nm > 18) nm = 18;
 	static const char *qts[] = {"NULL", "TXT", "CNAME", "MX", "SRV", "A", "PRIVATE"};
@@ -425,6 +471,7 @@ J gen_sessions(uint64_t seed, const J &ov)
 	uint64_t ser = seed % 1000 * 100000;
 	// legitimate traffic: tun packets for every model/real client, for unassigned addresses and for the server itself
 	int npk = (int)r.range(10, 80);
+	if (fpool) npk = (int)r.range(60, 200);
 	for (int i = 0; i < npk; i++) {
 		J op = J::obj(); op.set("ref", "abs"); op.set("t", when()); op.set("op", "tun"); op.set("at", "srv"); op.set("ser", (long long)++ser);
 		op.set("len", (int)r.range(40, 400)); op.set("body", "rnd"); op.set("src", "ext");
@@ -476,7 +523,7 @@ J gen_sessions(uint64_t seed, const J &ov)
 		f.set("p_delay", r.chance(0.3) ? r.uniform() * 0.2 : 0.0); f.set("max_delay_us", (long long)r.range(1000, 1500000));
 		cfg.set("faults", f);
 	}
-	int nadv = ffrag ? (int)r.range(0, 8) : (int)r.range(20, 200);
+	int nadv = ffrag ? (int)r.range(0, 8) : fpool ? (int)r.range(0, 20) : (int)r.range(20, 200);
 	for (int i = 0; i < nadv; i++) {
 		J op = J::obj(); op.set("ref", "abs"); op.set("t", when()); op.set("op", "mc"); op.set("who", "a" + std::to_string(r.range(0, na - 1)));
 		std::string act = acts[r.range(0, 11)];
@@ -492,7 +539,7 @@ J gen_sessions(uint64_t seed, const J &ov)
 		ops.push(op);
 	}
 	// spoofers: a legitimate-looking request naming a victim's slot, sent from a foreign address (same or other family)
-	int nsp = ffrag ? 0 : (int)r.range(10, 80);
+	int nsp = (ffrag || fpool) ? 0 : (int)r.range(10, 80);
 	for (int i = 0; i < nsp; i++) {
 		J op = J::obj(); op.set("ref", "abs"); op.set("t", when()); op.set("op", "mc"); op.set("who", "a0");
 		static const char *sacts[] = {"p", "l", "n", "i", "s", "o", "pkt"};
@@ -514,7 +561,7 @@ J gen_sessions(uint64_t seed, const J &ov)
 		ops.push(op);
 	}
 	// generated hostile commands and raw frames (no authorisation can come from them)
-	int nh = ffrag ? 0 : (int)r.range(10, 100);
+	int nh = (ffrag || fpool) ? 0 : (int)r.range(10, 100);
 	for (int i = 0; i < nh; i++) {
 		J op = J::obj(); op.set("ref", "abs"); op.set("t", when()); op.set("op", "dgram"); op.set("from", "atk2"); op.set("from_ip", "10.9.2.3"); op.set("sport", (int)r.range(1024, 65535)); op.set("to", "srv");
 		op.set("hex", hexs(r.chance(0.7) ? hostile_query_command(r, dom, cap) : hostile_raw_frame(r)));
@@ -554,6 +601,7 @@ World *build_sessions(const J &plan)
 	World *ww = w;
 	w->result_hooks.push_back([ww](J &r) {
 		if (ww->plan["cfg"].gets("focus") == "fragsize") r.set("nontriv", ww->probes["c03.login_ok"] >= 1 && ww->probes["c15.multifrag"] >= 1);
+		else if (ww->plan["cfg"].gets("focus") == "pool") r.set("nontriv", ww->probes["c03.login_ok"] >= 1 && ww->probes["c18.lookup_checked"] >= 1);
 		else r.set("nontriv", ww->probes["c03.login_ok"] >= 1 && ww->probes["c03.unauthorised_steps"] >= 5);
 	});
 	return w;
